@@ -3,4 +3,6 @@ import Driver
 def main (args : List String) : IO UInt32 := do
   match args with
   | ["ring"] => Driver.RingC.main; return 0
+  | ["fec"] => Driver.FecC.main; return 0
+  | ["autotune"] => Driver.AutoTuneC.main; return 0
   | _ => IO.eprintln "usage: kcpdriver <component>"; return 2
